@@ -29,24 +29,35 @@ theorem all_or_nothing (pf : PatchFn) (nz : Bool) (f : Form) (s : Stream) (st : 
     subst this
     rfl
 
-/-- **C13.1 against the documented schema — partial.** With validity as the schema documents it
-(unknown keys make a document invalid) all-or-nothing holds for streams in which no document carries
-unknown keys. Excluded point: see `unknown_keys_witness` (known finding `unknown-keys-ignored`). -/
-theorem all_or_nothing_documented_partial (pf : PatchFn) (nz : Bool) (f : Form) (rs : List RawDoc) (st : St)
-    (hx : ∀ r ∈ rs, r.extraKeys = false) (h : ∃ r ∈ rs, r.documentedValid = false) :
-    handle pf nz f (.docs (rs.map decodeRaw)) st = ⟨st, true, false, 0, false⟩ := by
+/-- **C13.1 against the documented schema.** With validity as the schema documents it (a key
+outside the documented set makes a document invalid, `additionalProperties: false`): if any document
+of the stream is invalid, nothing is applied and the execution fails. -/
+theorem all_or_nothing_documented (pf : PatchFn) (nz : Bool) (f : Form) (rs : List RawDoc) (st : St)
+    (h : ∃ r ∈ rs, r.documentedValid = false) :
+    handle pf nz f (Stream.ofRaw rs) st = ⟨st, true, false, 0, false⟩ := by
   apply all_or_nothing
-  refine Or.inr ⟨_, rfl, ?_⟩
-  obtain ⟨r, hr, hv⟩ := h
-  refine ⟨decodeRaw r, List.mem_map.mpr ⟨r, hr, rfl⟩, ?_⟩
-  simpa [RawDoc.documentedValid, hx r hr, decodeRaw] using hv
+  unfold Stream.ofRaw
+  by_cases hx : rs.any (·.extraKeys) = true
+  · simp [hx]
+  · right
+    simp only [hx, Bool.false_eq_true, ↓reduceIte]
+    refine ⟨_, rfl, ?_⟩
+    obtain ⟨r, hr, hv⟩ := h
+    refine ⟨r.doc, List.mem_map.mpr ⟨r, hr, rfl⟩, ?_⟩
+    have hre : r.extraKeys = false := by
+      cases hre : r.extraKeys
+      · rfl
+      · exact absurd (List.any_eq_true.mpr ⟨r, hr, hre⟩) hx
+    simpa [RawDoc.documentedValid, hre] using hv
 
-/-- Witness of the known finding: a document that the schema documents as invalid (it carries an
-unknown key) is applied — the typed decoders drop the key before validation. -/
-theorem unknown_keys_witness :
+/-- Regression witness for the repaired defect: the unrepaired decoders dropped unknown keys before
+validation, so a document that the schema documents as invalid was applied. -/
+theorem unknown_keys_unrepaired_witness :
     let r : RawDoc := ⟨⟨true, .delete .background 1 true 0, true⟩, true⟩
     r.documentedValid = false ∧
-    handle concretePf true .json (.docs [decodeRaw r]) ⟨[(1, [])], []⟩ = ⟨⟨[], [⟨.delete, 1, 0⟩]⟩, false, true, 0, false⟩ := by
+    handle concretePf true .json (.docs [decodeRawUnrepaired r]) ⟨[(1, [])], []⟩ =
+      ⟨⟨[], [⟨.delete, 1, 0⟩]⟩, false, true, 0, false⟩ ∧
+    handle concretePf true .json (Stream.ofRaw [r]) ⟨[(1, [])], []⟩ = ⟨⟨[(1, [])], []⟩, true, false, 0, false⟩ := by
   decide
 
 /-- **C13.1, converse** A stream whose documents are all valid parses without error into exactly
